@@ -13,6 +13,7 @@ BUDGET = {
     'C02': (1500, 60000),
     'C03': (700, 30000),
     'C04': (400, 20000),
+    'C05': (400, 20000),
     'C06': (1200, 40000),
     'C08': (300, 20000),
     'C09': (1500, 60000),
@@ -29,6 +30,49 @@ BUDGET = {
 }
 
 
+def replay(pid, mod, path):
+    """re-run the recorded failing case (or, when the replay names a broken obligation only, the
+    whole check at the recorded seed and tier) against the current tree.
+    exit 1 = the failure shows again, 0 = it does not, 2 = infrastructure"""
+    from . import cases
+    with open(path) as f:
+        rp = json.load(f)
+    seed, tier = int(rp.get('seed', 0)), rp.get('tier', 'quick')
+    ctx = core.Check(pid, tier, seed)
+    try:
+        ctx.extract()
+        ctx.build(getattr(mod, 'TARGETS', None))
+        q, t = BUDGET.get(pid, (1000, 20000))
+        n = t if tier == 'thorough' else q
+        case = rp.get('case')
+        if isinstance(case, dict) and 'index' in case and 'seed' in case:
+            cases.ONLY = (int(case['seed']), int(case['index']))     # the stream yields this case only
+            print('replaying case seed=%s index=%s profile=%s' % (case['seed'], case['index'], case.get('profile')))
+        if 'case' not in rp:
+            ctx.audit()
+        mod.run(ctx, n)
+        if not ctx.failures:
+            mod.search(ctx, max(n, 5000))
+        same = [fl for fl in ctx.failures if fl['what'] == rp.get('what')]
+        for fl in (same or ctx.failures)[:5]:
+            print('REPRODUCED: %s' % fl['what'])
+            if fl.get('detail') is not None:
+                print('  detail: %s' % repr(fl['detail'])[:1500])
+        for b in ctx.broken[:5]:
+            print('BROKEN: %s %s' % (b[0], b[1]))
+        if ctx.failures or ('case' not in rp and ctx.broken):
+            print('VIOLATION property=%s replay=%s' % (pid, path))
+            return 1
+        print('not reproduced on the current tree')
+        return 0
+    except core.InfraError as e:
+        print('INFRA: %s' % e, file=sys.stderr)
+        return 2
+    except Exception:
+        traceback.print_exc()
+        return 2
+
+
 def main(argv=None):
     ap = argparse.ArgumentParser()
     ap.add_argument('pid')
@@ -41,9 +85,7 @@ def main(argv=None):
     tier = 'thorough' if a.tier.startswith('t') else 'quick'
     mod = importlib.import_module('harness.props.' + pid.lower())
     if a.replay:
-        with open(a.replay) as f:
-            rp = json.load(f)
-        return mod.replay(rp)
+        return replay(pid, mod, a.replay)
     ctx = core.Check(pid, tier, seed)
     try:
         ctx.extract()
